@@ -8,14 +8,38 @@ NOTE_COMMON = ("Trusted: rustc type checking and MIR construction, the fact extr
                "functions (DESIGN 3.5), dependency summaries pinned to Cargo.lock versions (DESIGN 3.6); cryptographic "
                "assumptions where the text says 'modulo'. Numerical behaviour of primitives is not decided.")
 
+def _c(tech, text, ref):
+    return (tech, text, ref)
+
+
 CLAIMED = {
-    # id: (technique, text, design_ref)
-    'C03': ("must-pass-through (dominance) analysis over monomorphic MIR with a term domain; RFC key-schedule comparison",
-            "Decides for every path of ServerLogin::finish, in every suite analysed, that Ok is only reachable through a successful full-length MAC "
-            "comparison of the message's tag against a MAC keyed and fed from the stored state, that the released key is the state's, that failure maps to "
-            "InvalidLoginError, and that the stored state fields are the RFC 9807 key-schedule values. This is the whole property modulo MAC unforgeability; "
-            "static analysis is the right level because the statement is about all inputs/paths, which no test can enumerate.",
-            "DESIGN.md section 5 C03"),
+    'C02': _c("term/guard analysis of the client steps over monomorphic MIR (password sinks, randomized-password formula, two dominating MAC comparisons, error mapping)",
+              "Decides, for every path and suite analysed, that the password reaches the OPRF unmodified, that ClientLogin::finish can return Ok only after a successful envelope-MAC "
+              "and server-MAC comparison whose keys descend from the randomized password, and that their failures map to InvalidLoginError. Structural clause of the property; "
+              "that different passwords give different MACs is cryptographic and not decided.", "DESIGN.md section 5 C02"),
+    'C03': _c("must-pass-through (dominance) analysis over monomorphic MIR with a term domain; RFC key-schedule comparison",
+              "Decides for every path of ServerLogin::finish, in every suite analysed, that Ok is only reachable through a successful full-length MAC comparison of the message's tag "
+              "against a MAC keyed and fed from the stored state, that the released key is the state's, that failure maps to InvalidLoginError, and that the stored state fields are the "
+              "RFC 9807 key-schedule values. The whole property modulo MAC unforgeability.", "DESIGN.md section 5 C03"),
+    'C04': _c("field-coverage (containment) + dominance analysis of ClientLogin::finish over monomorphic MIR; leaf fields enumerated from concrete type layouts",
+              "Decides that every leaf field of the credential response and of the client's own request is in the MAC-verified preamble (or is the compared tag), that the verification "
+              "dominates every output and that the reflected-value test is passed. Structural clause; MAC/hash security not decided.", "DESIGN.md section 5 C04"),
+    'C06': _c("provenance analysis of the server public key term through registration and login (term domain over monomorphic MIR)",
+              "Decides that the key reported to the client is the one authenticated by the envelope MAC and used in the DH slot, and that the server masks the public key of the setup's "
+              "own private key. Structural clause; MAC security not decided.", "DESIGN.md section 5 C06"),
+    'C08': _c("two-run comparison by term unification of the Some/None summaries of ServerLogin::start; formula check of the evaluation element",
+              "Decides that the presence of a password file influences nothing but the choice of record, that the dummy record is (fresh RNG key, zero envelope, setup fake key), and "
+              "that the evaluation is the same function of seed, credential id and request. Structural indistinguishability of the code path; statistical indistinguishability of values "
+              "is not decided.", "DESIGN.md section 5 C08"),
+    'C14': _c("provenance analysis of OPRF blind / evaluate / finalize terms in the production (cfg(not(test))) MIR",
+              "Decides that the evaluation depends only on seed, credential id and request element, that the OPRF key contains seed and credential id, and that the production blind is a "
+              "fresh draw whose state and message come from one voprf blind call on the password. Blind cancellation is algebra inside voprf and is assumed.", "DESIGN.md section 5 C14"),
+    'C15': _c("counting/guard analysis of Ksf::hash events on every Ok path of the client finish steps (incl. an Argon2 suite)",
+              "Decides the structure of the property completely: exactly one KSF call per finish path, right receiver on each branch of the parameter, argument = OPRF output, result bound "
+              "into every password-derived secret, failure propagated. 'Different parameters fail' additionally needs the KSF to be a function of its parameters.", "DESIGN.md section 5 C15"),
+    'C17': _c("who-may-call analysis over the whole monomorphic call graph (deny-list of entropy/time/IO items, RNG receiver types) + provenance of each random quantity",
+              "Decides for the production build where every random quantity comes from (a distinct draw on the caller's generator) and that no other entropy, time or global state is "
+              "reachable. That independent tapes give different values is the tape's property.", "DESIGN.md section 5 C17"),
 }
 
 NA = {
